@@ -945,6 +945,104 @@ func TestC05(t *testing.T) {
 		c.Event("messages_delivered", len(msgs))
 	})
 
+	// 4c'. Server.ReadTimeout bounds how long the server waits for one message. A peer that
+	//     pauses between fragments - never as long as ReadTimeout within the wait for any one
+	//     message - gets every message delivered, wherever the fragment boundaries fall: on a
+	//     message boundary, or a few bytes into the next message (no CloseNotify here)
+	rec.Suite("read-timeout-with-pauses-between-fragments", rec.N(400, 40000), func(c *ev.Case) {
+		r := c.R
+		const rt = time.Second
+		nm := 2 + r.IntN(5)
+		var msgs [][]byte
+		var stream []byte
+		var ends []int
+		for k := 0; k < nm; k++ {
+			m := seqMsg(uint32(c.I*16+k+1), []int{0, 12, 56, 100, 1028}[r.IntN(5)])
+			msgs = append(msgs, m)
+			stream = append(stream, m...)
+			ends = append(ends, len(stream))
+		}
+		// fragment boundaries: message boundaries, or shortly after / before one, or anywhere
+		var cuts []int
+		for _, e := range ends[:len(ends)-1] {
+			switch r.IntN(4) {
+			case 0:
+				cuts = append(cuts, e)
+			case 1:
+				cuts = append(cuts, e+1+r.IntN(19)) // inside the next header
+			case 2:
+				cuts = append(cuts, e-1-r.IntN(8))
+			case 3:
+				cuts = append(cuts, e+20+r.IntN(8))
+			}
+		}
+		for k := r.IntN(3); k > 0; k-- {
+			cuts = append(cuts, 1+r.IntN(len(stream)-1))
+		}
+		sort.Ints(cuts)
+		var frags [][2]int
+		prev := 0
+		for _, cut := range append(cuts, len(stream)) {
+			if cut > prev && cut <= len(stream) {
+				frags = append(frags, [2]int{prev, cut})
+				prev = cut
+			}
+		}
+		var got [][]byte
+		var mu sync.Mutex
+		var plan []string
+		leak := runBubbleWD(t, rec, c, 60*time.Second, func() {
+			mc := memnet.NewConn()
+			ln := memnet.NewListener()
+			srv := &diam.Server{Handler: diam.HandlerFunc(func(cn diam.Conn, m *diam.Message) {
+				b, _ := m.Serialize()
+				mu.Lock()
+				got = append(got, b)
+				mu.Unlock()
+			}), Dict: ctx.Parser, ReadTimeout: rt}
+			go srv.Serve(ln)
+			ln.Offer(mc)
+			synctest.Wait()
+			var now, winStart time.Duration // the wait for the current message began at winStart
+			for _, f := range frags {
+				p := []time.Duration{0, 0, 3 * rt / 10, 6 * rt / 10}[r.IntN(4)]
+				if now+p-winStart >= 95*rt/100 {
+					p = 0
+				}
+				if p > 0 {
+					time.Sleep(p)
+					now += p
+				}
+				plan = append(plan, fmt.Sprintf("+%dms:[%d,%d)", p/time.Millisecond, f[0], f[1]))
+				mc.Feed(stream[f[0]:f[1]])
+				synctest.Wait()
+				for _, e := range ends {
+					if e > f[0] && e <= f[1] {
+						winStart = now
+					}
+				}
+			}
+			synctest.Wait()
+			mc.FeedEOF()
+			ln.Close()
+			time.Sleep(2 * rt)
+			synctest.Wait()
+		})
+		if leak != "" && !c.Failed() {
+			c.Fail(ev.Sig{"op": "bubble-leak"}, nil, nil, "goroutines left blocked: %s", leak)
+			return
+		}
+		c.Class("read-timeout-with-pauses/msgs=%d/frags=%d", nm, min(len(frags), 6))
+		mu.Lock()
+		defer mu.Unlock()
+		if d := cmpSeq(got, msgs); d != "" {
+			c.Fail(ev.Sig{"op": "sequence", "how": "read-timeout-with-pauses"}, stream, plan, "Server.ReadTimeout 1 s, no pause as long as that within the wait for any one message (fragments %v; message ends %v): %s (sizes %v)", plan, ends, d, sizes(msgs))
+			return
+		}
+		c.Event("timeout_scenarios", 1)
+		c.Event("messages_delivered", len(msgs))
+	})
+
 	// 4d. the transport is a multi-stream association (in-memory backend behind diam.SCTPConn):
 	//     three or more streams carry message sequences whose chunks interleave; per stream the
 	//     same sequence of messages comes out, whatever the interleaving (the oracle of C19)
